@@ -107,6 +107,7 @@ def run(ctx):
     # offset comes back selecting nothing, and validation then reports unchanged text as invalid
     from props.c05 import omit_rule
     omit_rule(ctx, syn, rid="C18.OMIT")
+    fresh_rule(ctx, mirq.Program(ctx.facts.mir()))
     fns = [f for f in syn.fns if f.file == FILE]
     by = {}
     for f in fns:
@@ -345,3 +346,45 @@ def run(ctx):
         r_direct.hit("carried:" + nm)
         if used:
             ctx.report(r_direct, "carried:" + nm, "the store-level validation loop reads and writes `%s`, state carried from one annotation to the next: an annotation's verdict is no longer a function of that annotation alone (a cache keyed by anything less than the full target can hand one annotation another's verdict)" % nm, vt_store.file, used[0].get("l"))
+
+
+# ---------------------------------------------------------------------- FRESH
+FRESH_PURE = {"arg1", "std::option::Option::<T>::is_some", "std::option::Option::<T>::is_none", "std::option::Option::<T>::as_ref", "std::ops::Not::not",
+              "std::option::Option::<T>::as_deref", "std::ops::Deref::deref", "std::clone::Clone::clone"}
+
+
+def fresh_rule(ctx, prog, rid="C18.FRESH"):
+    """The references protect_text stores are computed from the text in memory.  They only keep validating after save and
+    reload if the stand-off text file that @include names holds that same text, i.e. if a resource that was given its
+    text explicitly is marked changed (the writer only writes marked resources).  Whether it is marked must follow from
+    the builder alone - never from what happens to be on disk already, which is exactly the stale copy."""
+    import mirq
+    r = ctx.rule(rid, "in TextResourceBuilder::build the change marker of the new resource is a constant or derives from the builder's own fields only (no file-system state): a resource given explicit text and a file name is always written")
+    bs = prog.find_bodies(r"resources::TextResourceBuilder::build$")
+    if len(bs) != 1:
+        ctx.anchor_missing(r, "TextResourceBuilder::build")
+        return
+    b = bs[0]
+    ctx.functions_analysed.add(b.id)
+    n = 0
+    dynamic = 0
+    for bi, t in b.calls():
+        c = mirq.callee_of(t)[0] or ""
+        if re.search(r"RwLock::<T>::new$", c) and t.get("args"):
+            n += 1
+            key = b.key_of_operand(t["args"][0])
+            prov = set(b.provenance(t["args"][0]))
+            r.hit("marker#%d" % n, sample={"marker": str(key), "derives_from": sorted(prov)})
+            if str(key).startswith("const:"):
+                if str(key) not in ("const:0", "const:false"):
+                    dynamic += 1    # constantly marked: always written
+                continue
+            dynamic += 1
+            extra = sorted(prov - FRESH_PURE)
+            if extra:
+                ctx.report(r, "marker-depends|" + "|".join(mirq.short_fn(x) for x in extra)[:80], "the change marker of a resource built from explicit text depends on %s: when it comes out false although the text is new (a file of that name exists already), save() writes @include to the old file, and the validation data protect_text stored no longer matches the text after a reload" % ", ".join(extra), b.file, t.get("line"))
+            elif "arg1" not in prov:
+                ctx.report(r, "marker-unrelated", "the change marker of a resource built from explicit text does not derive from the builder (%s)" % sorted(prov), b.file, t.get("line"))
+    ctx.floor(r, n, 2, "change markers initialised in TextResourceBuilder::build")
+    if n >= 2 and dynamic == 0:
+        ctx.report(r, "marker-constant", "every change marker in TextResourceBuilder::build is the constant false: a resource given explicit text and a file name is not marked for writing", b.file, b.line)
